@@ -11,6 +11,7 @@ use kvh::sys::*;
 use kvh::util::{coq_list, write_json, Args, CaseWriter, Rng};
 use krill::commons::eventsourcing::{Aggregate, AggregateStore, WalStore};
 use krill::commons::storage::Ident;
+use krill::commons::storage::verif::{set_probe, Event, Probe};
 use krill::constants::{CASERVER_NS, PUBSERVER_CONTENT_NS, PUBSERVER_NS, TA_PROXY_SERVER_NS, TA_SIGNER_SERVER_NS};
 use krill::server::ca::CertAuth;
 use krill::server::pubd::{RepositoryAccess, RepositoryContent};
@@ -30,6 +31,22 @@ fn strip_clock(v: &mut Value) {
 }
 
 fn canon<T: serde::Serialize>(t: &T) -> Value { let mut v = serde_json::to_value(t).unwrap(); strip_clock(&mut v); v }
+
+/// Makes the next write to the published-object store (`ca_objects`) of an armed instance fail: the CA's pre-save
+/// listener then refuses a command the aggregate itself accepted. One process-global probe; instances are told
+/// apart by the directory of their (disk) storage.
+struct Injector { armed: Mutex<std::collections::BTreeSet<String>>, hits: Mutex<BTreeMap<String, u64>> }
+impl Probe for Injector {
+    fn on_event(&self, ev: &Event) -> bool {
+        if ev.kind != "store" || !ev.ns.contains("ca_objects") { return true }
+        let mut a = self.armed.lock().unwrap();
+        let Some(dir) = a.iter().find(|d| ev.ns.contains(d.as_str())).cloned() else { return true };
+        a.remove(&dir);
+        *self.hits.lock().unwrap().entry(dir).or_default() += 1;
+        false
+    }
+}
+static INJECTOR: std::sync::OnceLock<std::sync::Arc<Injector>> = std::sync::OnceLock::new();
 
 struct Tracked { ops: Vec<String>, n_cmds: u64, total_events: u64, seen_version: u64 }
 
@@ -124,6 +141,11 @@ fn run_history(args: &Args, hist: u64, seed: u64, n_ops: u64, out: &Mutex<Out>) 
     let dir = args.out.join(format!("h{hist}"));
     let mut opts = SysOpts::new(&dir);
     opts.mem_seed = seed;
+    // every fourth history runs on the disk back-end, where the probe can tell the stores apart: there commands are
+    // made to fail in the pre-save listener every now and then
+    opts.disk = hist % 4 == 3;
+    let inject = opts.disk;
+    let dir_tag = format!("/h{hist}/");
     let sys = Sys::open(opts);
     let new_t = || Tracked { ops: vec![], n_cmds: 0, total_events: 0, seen_version: 0 };
     let mut tracked: BTreeMap<String, Tracked> = BTreeMap::new();
@@ -156,23 +178,37 @@ fn run_history(args: &Args, hist: u64, seed: u64, n_ops: u64, out: &Mutex<Out>) 
     let mut st = OpState::new();
     let setup = setup_steps();
     let total = setup.len() as u64 + n_ops;
+    let mut check_all = 0u32;
     for i in 0..total {
         if (i as usize) < setup.len() { let _ = setup[i as usize](&sys); }
         else {
             let tags = |ca: &str| -> Vec<String> { sys.ca(ca).ok().map(|c| serde_json::to_value(&*c).unwrap()).and_then(|c| c["resources"].as_object().map(|m| m.values().map(keystate_tag).collect())).unwrap_or_default() };
+            let arm = inject && rng.chance(15);
+            let inj = INJECTOR.get().unwrap();
+            let before = inj.hits.lock().unwrap().get(&dir_tag).copied().unwrap_or(0);
+            if arm { inj.armed.lock().unwrap().insert(dir_tag.clone()); }
             let _ = random_op(&sys, &mut rng, &mut st, &tags);
+            if arm {
+                inj.armed.lock().unwrap().remove(&dir_tag);
+                if inj.hits.lock().unwrap().get(&dir_tag).copied().unwrap_or(0) > before {
+                    // compare every CA with its replay now and after the next operation
+                    check_all = 2;
+                    *out.lock().unwrap().kinds.entry("CertAuth:after_command_refused_by_listener".into()).or_default() += 1;
+                }
+            }
         }
         // event-sourced aggregates
         for h in CAS {
             if !has_ca(&sys, h) { continue }
             let t = tracked.get_mut(&format!("ca:{h}")).unwrap();
             absorb_commands(&sys, CASERVER_NS, h, t);
-            if rng.chance(25) {
+            if rng.chance(25) || check_all > 0 {
                 let live = sys.ca(h).ok().map(|c| canon(&*c));
                 let res = fresh_checks::<CertAuth>(&sys, CASERVER_NS, h, live, t, &mut rng);
                 emit(out, "CertAuth", h, hist, t, snapshot_version(&sys, CASERVER_NS, h), res);
             }
         }
+        check_all = check_all.saturating_sub(1);
         if rng.chance(15) {
             let t = tracked.get_mut("proxy:ta").unwrap();
             absorb_commands(&sys, TA_PROXY_SERVER_NS, "ta", t);
@@ -273,6 +309,8 @@ fn main() {
     let out = Mutex::new(Out { w: CaseWriter::new(&args.out, header, "list case", footer, 100), jsonl: std::fs::File::create(args.out.join("cases.jsonl")).unwrap(),
         kinds: BTreeMap::new(), distinct: Default::default(), samples: vec![], impl_failures: vec![], fresh_loads: 0 });
     std::panic::set_hook(Box::new(|_| {}));
+    let inj = INJECTOR.get_or_init(|| std::sync::Arc::new(Injector { armed: Default::default(), hits: Default::default() })).clone();
+    set_probe(Some(inj));
     let mut rng = Rng::new(args.seed);
     let seeds: Vec<u64> = (0..n_hist).map(|_| rng.next()).collect();
     std::thread::scope(|s| {
@@ -293,7 +331,8 @@ fn main() {
     write_json(&args.out.join("stats.json"), &json!({
         "scenario": "c06", "seed": args.seed, "tier": args.tier, "histories": n_hist, "ops_per_history": n_ops,
         "evaluations": o.w.total, "distinct_nontrivial": o.distinct.len(), "fresh_loads": o.fresh_loads,
-        "rule": "random API histories on the TA->a->{b->c,d} hierarchy; at random points, per aggregate (CertAuth x4, TrustAnchorProxy, TrustAnchorSigner, RepositoryAccess, RepositoryContent WAL) fresh stores are opened on the same storage as is / after writing a snapshot / after deleting it, and the serialised aggregates (minus the two wall-clock fields) are compared with the live ones and with each other; one case = the store operation history of one aggregate up to that point + what was observed; non-trivial = at least one stored command; distinct = distinct operation histories",
+        "rule": "random API histories on the TA->a->{b->c,d} hierarchy; at random points, per aggregate (CertAuth x4, TrustAnchorProxy, TrustAnchorSigner, RepositoryAccess, RepositoryContent WAL) fresh stores are opened on the same storage as is / after writing a snapshot / after deleting it, and the serialised aggregates (minus the two wall-clock fields) are compared with the live ones and with each other; every fourth history runs on the disk back-end and there, now and then, the next write to the published-object store is made to fail, so that the CA's pre-save listener refuses a command (which must then leave no trace in the live state either); one case = the store operation history of one aggregate up to that point + what was observed; non-trivial = at least one stored command; distinct = distinct operation histories",
+        "listener_failures_injected": INJECTOR.get().map(|i| i.hits.lock().unwrap().values().sum::<u64>()).unwrap_or(0),
         "aggregate_distribution": o.kinds, "samples": o.samples, "impl_failures": o.impl_failures,
     }));
     println!("c06: {} cases from {} histories", o.w.total, n_hist);
